@@ -44,10 +44,26 @@ func (l *c16log) take() []string {
 
 type c16Svc struct {
 	log      *c16log
-	lastReq  *tpb.Message // object the handler received
-	lastResp *tpb.Message
-	retErr   error
+	lastReq   *tpb.Message // object the handler received
+	lastResp  *tpb.Message
+	lastTrail []string // names of the interceptors whose context reached the handler
+	retErr    error
 }
+
+type c16TrailKey struct{}
+
+func c16Trail(ctx context.Context) []string {
+	t, _ := ctx.Value(c16TrailKey{}).([]string)
+	return append([]string(nil), t...)
+}
+
+// c16CtxStream lets a stream interceptor pass a changed context onward.
+type c16CtxStream struct {
+	grpc.ServerStream
+	ctx context.Context
+}
+
+func (s c16CtxStream) Context() context.Context { return s.ctx }
 
 type c16Server interface{ c16() }
 
@@ -71,6 +87,7 @@ func c16Desc(r *rand.Rand, name string) *grpc.ServiceDesc {
 			h := func(ctx context.Context, req interface{}) (interface{}, error) {
 				s.log.add("handler %s", full)
 				s.lastReq, _ = req.(*tpb.Message)
+				s.lastTrail = c16Trail(ctx)
 				if s.retErr != nil {
 					return nil, s.retErr
 				}
@@ -93,6 +110,7 @@ func c16Desc(r *rand.Rand, name string) *grpc.ServiceDesc {
 		sd.Streams = append(sd.Streams, grpc.StreamDesc{StreamName: m, ClientStreams: cs, ServerStreams: ss, Handler: func(srv interface{}, st grpc.ServerStream) error {
 			s := srv.(*c16Svc)
 			s.log.add("handler %s", full)
+			s.lastTrail = c16Trail(st.Context())
 			if s.retErr != nil {
 				return s.retErr
 			}
@@ -157,7 +175,7 @@ func (l c16Layer) unaryInt(log *c16log, seen *[]observed) grpc.UnaryServerInterc
 	}
 	return func(ctx context.Context, req interface{}, info *grpc.UnaryServerInfo, handler grpc.UnaryHandler) (interface{}, error) {
 		log.add("enter %s %s", l.name, info.FullMethod)
-		*seen = append(*seen, observed{layer: l.name, req: req, server: info.Server})
+		*seen = append(*seen, observed{layer: l.name, req: req, server: info.Server, trail: c16Trail(ctx)})
 		switch l.beh {
 		case bShort:
 			log.add("exit %s", l.name)
@@ -165,6 +183,11 @@ func (l c16Layer) unaryInt(log *c16log, seen *[]observed) grpc.UnaryServerInterc
 		case bFail:
 			log.add("exit %s", l.name)
 			return nil, errC16Fail
+		}
+		// what this interceptor passes onward (a changed context and a changed request) is what the next one must get
+		ctx = context.WithValue(ctx, c16TrailKey{}, append(c16Trail(ctx), l.name))
+		if m, ok := req.(*tpb.Message); ok {
+			req = &tpb.Message{Payload: append(append([]byte{}, m.Payload...), []byte("|"+l.name)...)}
 		}
 		resp, err := handler(ctx, req)
 		(*seen)[len(*seen)-1].note = "returned"
@@ -183,7 +206,7 @@ func (l c16Layer) streamInt(log *c16log, seen *[]observed) grpc.StreamServerInte
 	}
 	return func(srv interface{}, ss grpc.ServerStream, info *grpc.StreamServerInfo, handler grpc.StreamHandler) error {
 		log.add("enter %s %s cs=%v ss=%v", l.name, info.FullMethod, info.IsClientStream, info.IsServerStream)
-		*seen = append(*seen, observed{layer: l.name, server: srv})
+		*seen = append(*seen, observed{layer: l.name, server: srv, trail: c16Trail(ss.Context())})
 		switch l.beh {
 		case bShort:
 			log.add("exit %s", l.name)
@@ -192,6 +215,7 @@ func (l c16Layer) streamInt(log *c16log, seen *[]observed) grpc.StreamServerInte
 			log.add("exit %s", l.name)
 			return errC16Fail
 		}
+		ss = c16CtxStream{ss, context.WithValue(ss.Context(), c16TrailKey{}, append(c16Trail(ss.Context()), l.name))}
 		err := handler(srv, ss)
 		*seen = append(*seen, observed{layer: l.name + "<", err: err})
 		log.add("exit %s", l.name)
@@ -209,6 +233,7 @@ type observed struct {
 	err    error
 	server interface{}
 	note   string
+	trail  []string
 }
 
 // fakeServerStream serves direct handler calls.
@@ -351,7 +376,9 @@ func checkC16(e *core.Env) {
 		}
 
 		// expected traces
+		var chainNames []string
 		expect := func(full string, isStream bool, cs, ss bool) (trace []string, handlerRuns bool, winner *c16Layer) {
+			chainNames = nil
 			var chain []*c16Layer
 			if (isStream && tl.stream) || (!isStream && tl.unary) {
 				chain = append(chain, &tl)
@@ -364,6 +391,7 @@ func checkC16(e *core.Env) {
 			handlerRuns = true
 			var exits []string
 			for _, l := range chain {
+				chainNames = append(chainNames, l.name)
 				if isStream {
 					trace = append(trace, fmt.Sprintf("enter %s %s cs=%v ss=%v", l.name, full, cs, ss))
 				} else {
@@ -432,11 +460,31 @@ func checkC16(e *core.Env) {
 					viol("info-server", full+": UnaryServerInfo.Server is not the registered handler", got)
 				}
 			}
-			if runs && svc.lastReq != nil && decoded != nil && svc.lastReq != decoded {
-				viol("request-identity", full+": handler did not receive the decoded request object", got)
+			_ = decoded
+			checkTrail := func() {
+				k := 0
+				for _, o := range seen {
+					if strings.HasSuffix(o.layer, "<") {
+						continue
+					}
+					if k < len(chainNames) && strings.Join(o.trail, ",") != strings.Join(chainNames[:k], ",") {
+						viol("passed-on-context", fmt.Sprintf("%s: interceptor %s saw the context trail %v, the interceptors before it passed on %v", full, o.layer, o.trail, chainNames[:k]), got)
+					}
+					k++
+				}
 			}
-			if runs && svc.lastReq != nil && string(svc.lastReq.Payload) != string(req.Payload) {
-				viol("request-content", full+": handler saw an altered request", got)
+			checkTrail()
+			if runs {
+				if strings.Join(svc.lastTrail, ",") != strings.Join(chainNames, ",") {
+					viol("passed-on-context", fmt.Sprintf("%s: handler saw the context trail %v, the interceptors passed on %v", full, svc.lastTrail, chainNames), got)
+				}
+				wantPayload := string(req.Payload)
+				for _, nme := range chainNames {
+					wantPayload += "|" + nme
+				}
+				if svc.lastReq == nil || string(svc.lastReq.Payload) != wantPayload {
+					viol("passed-on-request", fmt.Sprintf("%s: handler received request %q, the interceptors passed on %q", full, svc.lastReq.GetPayload(), wantPayload), got)
+				}
 			}
 			for k := len(seen) - 1; k >= 0; k-- {
 				o := seen[k]
@@ -506,7 +554,13 @@ func checkC16(e *core.Env) {
 				}
 			default:
 				ctx, cancel := context.WithCancel(context.Background())
-				st, serr := cc.NewStream(ctx, &grpc.StreamDesc{ClientStreams: o.ClientStreams, ServerStreams: o.ServerStreams}, full)
+				cdesc := &grpc.StreamDesc{ClientStreams: o.ClientStreams, ServerStreams: o.ServerStreams}
+				if r.Intn(2) == 0 {
+					// a generic client that opens every stream as bidirectional: the server side must still
+					// describe the method by its registered flags
+					cdesc = &grpc.StreamDesc{ClientStreams: true, ServerStreams: true}
+				}
+				st, serr := cc.NewStream(ctx, cdesc, full)
 				err = serr
 				if serr == nil {
 					st.SendMsg(&tpb.Message{Payload: []byte("req")})
@@ -515,7 +569,7 @@ func checkC16(e *core.Env) {
 					err = st.RecvMsg(m)
 					if err == nil {
 						got1 = m
-						if o.ServerStreams {
+						if cdesc.ServerStreams {
 							err = st.RecvMsg(new(tpb.Message))
 						}
 					}
@@ -535,6 +589,31 @@ func checkC16(e *core.Env) {
 			for _, ob := range seen {
 				if ob.server != nil && ob.server != interface{}(svc) {
 					viol("info-server", full+": stream interceptor got a different srv", got)
+				}
+			}
+			{
+				k := 0
+				for _, ob := range seen {
+					if strings.HasSuffix(ob.layer, "<") {
+						continue
+					}
+					if k < len(chainNames) && strings.Join(ob.trail, ",") != strings.Join(chainNames[:k], ",") {
+						viol("passed-on-context", fmt.Sprintf("%s: stream interceptor %s saw the context trail %v, expected %v", full, ob.layer, ob.trail, chainNames[:k]), got)
+					}
+					k++
+				}
+				ranAll := true
+				for _, l := range all {
+					if l.beh == bShort || l.beh == bFail {
+						for _, cn := range chainNames {
+							if cn == l.name {
+								ranAll = false
+							}
+						}
+					}
+				}
+				if ranAll && strings.Join(svc.lastTrail, ",") != strings.Join(chainNames, ",") {
+					viol("passed-on-context", fmt.Sprintf("%s: stream handler saw the context trail %v, expected %v", full, svc.lastTrail, chainNames), got)
 				}
 			}
 			wantCode := codes.OK
